@@ -1,8 +1,9 @@
 #ifndef VERIF_ZSTUB_H
 #define VERIF_ZSTUB_H
 /* zlib's crc32 replaced by an order-sensitive rolling function (DESIGN.md 2.3); deflate/inflate are not modelled. */
+#define ZSTUB_CRC_STEP(x, b) ((((uint32_t)(x) << 5) | ((uint32_t)(x) >> 27)) ^ (uint32_t)(b))      /* rotate-xor: order-sensitive, multiplication-free (cheap for the SAT back end) */
 #ifndef REAL
-uint64_t crc32(uint64_t h, uint8_t* p, uint32_t n) { uint32_t x = (uint32_t)h; for (uint32_t i = 0; i < n; i++) x = 31u * x + p[i]; return x; }
+uint64_t crc32(uint64_t h, uint8_t* p, uint32_t n) { uint32_t x = (uint32_t)h; for (uint32_t i = 0; i < n; i++) x = ZSTUB_CRC_STEP(x, p[i]); return x; }
 /* deflate / inflate are not modelled: CBLOCK records and compression_level > 0 are outside every claim; reaching them fails */
 #ifdef ZSTUB_INFLATE
 struct S_struct_z_stream_s;
